@@ -166,7 +166,9 @@ def acc_update(c):
     a = new_acc(c)
     p, x, y = c.pw("p"), c.pw("x"), c.pw("y")
     have = c.choice("parts", ["both", "pos", "neg", "none"])
-    mode = c.choice("bounding", ["none", "half", "full", "half_upper_only"])
+    # the two half bounds are independent settings: whatever the order in which they are configured (or re-configured),
+    # each keeps its own function and limit
+    mode = c.choice("bounding", ["none", "half", "full", "half_upper_only", "half:lo,up", "half:up,lo,up", "half:lo,up,lo", "half_lower_only"])
     UB = c.func("ub", z3.RealSort(), z3.RealSort(), z3.RealSort(), z3.RealSort())
     LB = c.func("lb", z3.RealSort(), z3.RealSort(), z3.RealSort(), z3.RealSort())
     FB = c.func("fb", *([z3.RealSort()] * 6))
@@ -177,8 +179,17 @@ def acc_update(c):
     if mode == "half":
         c.call(c.getattr(a, "upperbound"), ubm, mx)
         c.call(c.getattr(a, "lowerbound"), lbm, mn)
+    elif mode.startswith("half:"):
+        for which in mode.split(":")[1].split(","):
+            if which == "up":
+                c.call(c.getattr(a, "upperbound"), ubm, mx)
+            else:
+                c.call(c.getattr(a, "lowerbound"), lbm, mn)
+        mode = "half"
     elif mode == "half_upper_only":
         c.call(c.getattr(a, "upperbound"), ubm, mx)
+    elif mode == "half_lower_only":
+        c.call(c.getattr(a, "lowerbound"), lbm, mn)
     elif mode == "full":
         c.call(c.getattr(a, "fullbound"), fbm, mx, mn)
     if have in ("both", "pos"):
@@ -200,6 +211,9 @@ def acc_update(c):
     elif mode == "half_upper_only":
         exp = (UB(p.f, x.f, mx.z) if have != "neg" else 0) - (y.f if have != "pos" else 0)
         c.ensure("only_pos_bounded", res.f == p.f + exp)
+    elif mode == "half_lower_only":
+        exp = (x.f if have != "neg" else 0) - (LB(p.f, y.f, mn.z) if have != "pos" else 0)
+        c.ensure("only_neg_bounded", res.f == p.f + exp)
     else:
         c.ensure("full_bound_of_both_parts", res.f == p.f + FB(p.f, px, ny, mx.z, mn.z))
     # after clear a second application changes nothing
@@ -320,6 +334,7 @@ def updatable_apply(c):
     c.canary("canary_nothing_happens", z3.BoolVal(not log and which != "updatesome:none"))
 
 MUTANTS = [
+    dict(file=M, func="Accumulator.upperbound", old="        if not isinstance(self.bind, list):", new="        if not isinstance(self.bind, tuple):", contracts=["Accumulator.update"], name="seed C10g: configuring the upper bound discards a lower bound configured earlier"),
     dict(file=M, func="Updatable.updatesome", old="            self.updater(p, **kwargs)\n            if clear:\n                getattr(self.updater, p).clear(**kwargs)", new="            self.updater(p, **kwargs)\n        if clear:\n            getattr(self.updater, p).clear(**kwargs)", contracts=["Updatable.update_and_updatesome"], name="seed C10f: only the last named parameter is cleared"),
     dict(file=M, func="Updatable.update", old="            if clear:\n                self.updater.clear(**kwargs)", new="            if not clear:\n                self.updater.clear(**kwargs)", contracts=["Updatable.update_and_updatesome"], name="update: clear flag inverted"),
     dict(file=M, func="Accumulator.neg@setter", old="self._neg_cache.cache_clear()", new="self._pos_cache.cache_clear()", contracts=["Accumulator.cache", "Accumulator.update"], name="seed C10: neg setter clears the wrong cache"),
